@@ -156,7 +156,9 @@ def rule_enc(ctx):
     # write_line appends exactly one END_OF_LINE and encodes with the server encoding
     wl = p.method("Server", "write_line")
     enc = [c for c in walk_no_nested(wl) if isinstance(c, ast.Call) and is_method_call(c, "encode")]
-    ok = len(enc) == 1 and isinstance(enc[0].func.value, ast.BinOp) and src(enc[0].func.value.right) == "END_OF_LINE" and isinstance(enc[0].func.value.left, ast.Name) \
+    recv = deep_expand(p, enc[0].func.value, wl) if len(enc) == 1 else None
+    line_p = wl.args.args[2].arg if len(wl.args.args) > 2 else "line"
+    ok = len(enc) == 1 and isinstance(recv, ast.BinOp) and isinstance(recv.op, ast.Add) and src(recv.right) == "END_OF_LINE" and isinstance(recv.left, ast.Name) and recv.left.id == line_p \
         and any(k.arg == "encoding" and src(k.value) == "self.encoding" for k in enc[0].keywords)
     ctx.ob("C06.ENC", wl, "write_line sends (line + END_OF_LINE).encode(self.encoding), unmodified", ok, "write_line does not send the line followed by exactly one END_OF_LINE in the server encoding", construct="write_line:form")
     eol = p.module_const("common.py", "END_OF_LINE")
@@ -355,9 +357,9 @@ def rule_lit(ctx):
     ctx.floor("C06.LIT", 36, "reply sites")
     # the reply primitive enqueues (code, lines[, list]) and the writer forwards them in order to write_response
     ctor = p.session_ctor()
-    resp = next((k.value for k in ctor.keywords if k.arg == "response"), None)
-    ok = isinstance(resp, ast.Lambda) and resp.args.vararg is not None and isinstance(resp.body, ast.Call) and is_method_call(resp.body, "put_nowait") \
-        and [src(x) for x in resp.body.args] == [resp.args.vararg.arg]
+    r_args, r_body, _ = response_primitive(p)
+    ok = r_args is not None and r_args.vararg is not None and not r_args.args and isinstance(r_body, ast.Call) and is_method_call(r_body, "put_nowait") \
+        and [src(x) for x in r_body.args] == [r_args.vararg.arg]
     ctx.ob("C06.LIT", ctor, "the reply primitive enqueues its arguments unchanged", ok, "the reply primitive does not enqueue its arguments unchanged", construct="response primitive")
     rw = p.method("Server", "response_writer")
     calls = [c for c in walk_no_nested(rw) if is_self_call(c, {"write_response"})]
